@@ -1,5 +1,6 @@
 import Nstd.Sync.Posix
 import Nstd.Generated.SyncSemPoll
+import Nstd.Generated.SyncApi
 /-
   Sync area (property C11) — the five primitives as interleaving transition systems over the assumed
   POSIX layer, transcribed call by call from src/Mutex.cpp, Semaphore.cpp, Signal.cpp, Monitor.cpp,
@@ -27,7 +28,9 @@ structure St where
   /-- ghost: successful lock/tryLock returns minus unlock returns of each thread -/
   held : Tid → Nat
 
-def init : St := ⟨⟨true, none, 0⟩, fun _ => .idle, fun _ => none, fun _ => 0⟩
+/-- `Mutex::Mutex()`: the kind of the pthread mutex is read from the CURRENT Mutex.cpp (Generated/SyncApi: the attribute
+    passed to pthread_mutex_init) -/
+def init : St := ⟨⟨Nstd.Generated.SyncApi.mutexRecursive, none, 0⟩, fun _ => .idle, fun _ => none, fun _ => 0⟩
 
 def step (s : St) (t : Tid) : Act Op → Option St
   | .tick _ => some s
@@ -316,9 +319,12 @@ structure St where
   raised : Nat
   /-- the order of `set()`: true = lock; store; pthread_cond_signal; unlock — false = lock; store; unlock; pthread_cond_signal -/
   sigFirst : Bool
+  /-- ghost: thread t holds the monitor as a CLIENT — successful returns of lock / tryLock / pthread_cond_[timed]wait minus
+      unlock returns and pthread_cond_[timed]wait entries of t (the monitor is not recursive: 0 or 1) -/
+  held : Tid → Bool
 
 def init (now spur : Nat) (sigFirst : Bool := false) : St :=
-  ⟨none, false, [], fun _ => .idle, fun _ => none, now, spur, 0, 0, [], 0, sigFirst⟩
+  ⟨none, false, [], fun _ => .idle, fun _ => none, now, spur, 0, 0, [], 0, sigFirst, fun _ => false⟩
 
 def goto (s : St) (t : Tid) (p : Pc) : St := { s with pc := upd s.pc t p }
 def done (s : St) (t : Tid) (v : Val) : St := { s with pc := upd s.pc t .idle, ret := upd s.ret t (some v) }
@@ -342,20 +348,20 @@ def step (s : St) (t : Tid) : Act Op → Option St
   | .run alt =>
     match s.pc t with
     | .idle => none
-    | .lock => if alt = 0 ∧ s.m = none then some (done { s with m := some t } t .unit) else none
+    | .lock => if alt = 0 ∧ s.m = none then some (done { s with m := some t, held := upd s.held t true } t .unit) else none
     | .tryLock =>
       if alt = 0 then
-        if s.m = none then some (done { s with m := some t } t (.bool true)) else some (done s t (.bool false))
+        if s.m = none then some (done { s with m := some t, held := upd s.held t true } t (.bool true)) else some (done s t (.bool false))
       else none
-    | .unlock => if alt = 0 ∧ s.m = some t then some (done { s with m := none } t .unit) else none
+    | .unlock => if alt = 0 ∧ s.m = some t then some (done { s with m := none, held := upd s.held t false } t .unit) else none
     -- wait(): for(;;) { pthread_cond_[timed]wait(...) [!= 0 → return false]; if(signaled) { signaled = false; return true; } }
     | .wEnter dl =>
       if alt = 0 ∧ s.m = some t then
         match dl with
         | some d =>
-          if d.ts.valid then some (goto { s with m := none, waiters := s.waiters ++ [t] } t (.wBlocked dl false))
+          if d.ts.valid then some (goto { s with m := none, held := upd s.held t false, waiters := s.waiters ++ [t] } t (.wBlocked dl false))
           else some (done { s with flog := ⟨t, dl, s.now⟩ :: s.flog } t (.bool false))    -- EINVAL
-        | none => some (goto { s with m := none, waiters := s.waiters ++ [t] } t (.wBlocked dl false))
+        | none => some (goto { s with m := none, held := upd s.held t false, waiters := s.waiters ++ [t] } t (.wBlocked dl false))
       else none
     | .wBlocked dl _ =>
       if alt = 0 then
@@ -369,9 +375,9 @@ def step (s : St) (t : Tid) : Act Op → Option St
       else none
     | .wRelock dl timedOut =>
       if alt = 0 ∧ s.m = none then
-        if timedOut then some (done { s with m := some t, flog := ⟨t, dl, s.now⟩ :: s.flog } t (.bool false))
-        else if s.flag then some (done { s with m := some t, flag := false, succ := s.succ + 1 } t (.bool true))
-        else some (goto { s with m := some t } t (.wEnter dl))
+        if timedOut then some (done { s with m := some t, held := upd s.held t true, flog := ⟨t, dl, s.now⟩ :: s.flog } t (.bool false))
+        else if s.flag then some (done { s with m := some t, held := upd s.held t true, flag := false, succ := s.succ + 1 } t (.bool true))
+        else some (goto { s with m := some t, held := upd s.held t true } t (.wEnter dl))
       else none
     -- set(): lock; signaled = true; then unlock; pthread_cond_signal — or (sigFirst) pthread_cond_signal; unlock
     | .setLock =>
@@ -529,11 +535,14 @@ structure St where
 
 def init (now : Nat) : St := ⟨now, fun _ => none, []⟩
 
+/-- the factor of `usleep(milliseconds * <factor>)`, read from the CURRENT Thread.cpp (Generated/SyncApi) -/
+abbrev usPerMs : Nat := Nstd.Generated.SyncApi.sleepUsPerMs
+
 /-- `Op` = the milliseconds argument -/
 def step (s : St) (t : Tid) : Act Nat → Option St
   | .tick q => some { s with now := s.now + q }
-  | .call ms =>          -- usleep(milliseconds * 1000): microseconds; the POSIX layer counts nanoseconds
-    if s.pc t = none then some { s with pc := upd s.pc t (some ⟨s.now + (ms * 1000) * 1000, s.now, ms⟩) } else none
+  | .call ms =>          -- usleep(milliseconds * usPerMs): microseconds; the POSIX layer counts nanoseconds
+    if s.pc t = none then some { s with pc := upd s.pc t (some ⟨s.now + (ms * usPerMs) * 1000, s.now, ms⟩) } else none
   | .run alt =>
     match s.pc t with
     | none => none
